@@ -139,6 +139,9 @@ func runC02(p *core.Prog, r *core.Report) {
 	opEnum := func() *types.Named { return p.Named(pkgPBInt, "Operation_Type") }
 
 	// ------------------------------------------------------------------ R1
+	r.Guard("C02.R1", "merge-float-codec", "float64 merge helpers are total", func() { checkMergeFloatCodecTotal(p, r, "C02.R1") })
+	r.Guard("C02.R1", "bigdecimal-truncation", "merge and host calls normalise alike", func() { checkDecimalTruncationAgreement(p, r, "C02.R1") })
+	r.Guard("C02.R5", "PartialKV.Roll", "nothing of the previous segment survives a roll", func() { checkRollResetsSegmentState(p, r, "C02.R5") })
 	r.Guard("C02.R1", "Flush", "operation table", func() {
 		fd, pk := p.FuncDecl(pkgStore, "baseStore.Flush")
 		fn := p.Func(pkgStore, "baseStore.Flush")
